@@ -50,6 +50,17 @@ impl ParseInfo {
             frame: frame_id,
             layer: cel.data.layer_index,
         };
+        // A cel must refer to a layer that has already been defined (layer
+        // chunks precede cel chunks). Checking this here also keeps the cel
+        // table from being grown by a bogus, file-supplied layer index.
+        if cel.data.layer_index as usize >= self.layers.len() {
+            return Err(AsepriteParseError::InvalidInput(format!(
+                "Cel {} references layer {}, but only {} layers are defined",
+                cel_id,
+                cel.data.layer_index,
+                self.layers.len()
+            )));
+        }
         self.framedata.add_cel(frame_id, cel)?;
         self.user_data_context = Some(UserDataContext::CelId(cel_id));
         Ok(())
